@@ -58,6 +58,9 @@ Proof.
   - eapply delete_fail_no_trace; eauto.
   - destruct (ver_ge (h_ver h) minver); [discriminate|]. now inversion H.
   - now inversion H.
+  - unfold h_keypair in H. destruct (negb ok); [now inversion H|discriminate].
+  - unfold h_derive in H. destruct (negb ok); [now inversion H|discriminate].
+  - destruct ok; [discriminate|now inversion H].
 Qed.
 
 Lemma session_eta : forall s, {| committed := committed s; working := working s |} = s.
@@ -80,7 +83,7 @@ Definition clean (s : session) : Prop := working s = committed s.
 Lemma dispatch_no_commit_no_change : forall h w pl b w' p', dispatch h w pl b = HOk w' false p' -> w' = w.
 Proof.
   intros h w pl b w' p' H. destruct b; simpl in H;
-    unfold h_create, h_register, h_get, h_activate, h_revoke, h_destroy, h_modify, h_set, h_delete in H;
+    unfold h_create, h_register, h_get, h_activate, h_revoke, h_destroy, h_modify, h_set, h_delete, h_keypair, h_derive in H;
     repeat match goal with
            | H : HOk _ _ _ = HOk _ _ _ |- _ => inversion H; clear H; subst
            | H : HFail _ _ = HOk _ _ _ |- _ => discriminate H
@@ -116,7 +119,8 @@ Lemma close_open : forall st, close_session (open_session st) = st.
 Proof. reflexivity. Qed.
 
 (* ---------- placeholder ---------- *)
-Definition creating (b : body) : bool := match b with BCreate _ _ _ _ _ _ _ _ _ | BRegister _ _ _ _ _ => true | _ => false end.
+Definition creating (b : body) : bool :=
+  match b with BCreate _ _ _ _ _ _ _ _ _ | BRegister _ _ _ _ _ | BKeyPair _ _ _ | BDerive _ _ _ => true | _ => false end.
 
 (* the same item with its identifier filled in *)
 Definition with_target (u : Z) (b : body) : body :=
@@ -143,20 +147,27 @@ Proof.
     destruct tgt; reflexivity.
 Qed.
 
+(* a successful creating item publishes its new object(s) and leaves the identifier of one of them,
+   owned by the requester, in the placeholder (CreateKeyPair: the private key) *)
 Lemma creating_sets_placeholder : forall h s p it s' p',
     creating (it_body it) = true -> handle h s p it = (OK, s', p') ->
-    p' = Some (next (working s)) /\
-    exists o, o_uid o = next (working s) /\ o_owner o = h_user h /\
-              working s' = insert o (working s) /\ committed s' = working s'.
+    exists u o, p' = Some u /\ next (working s) <= u < next (working s') /\
+                In o (objs (working s')) /\ o_uid o = u /\ o_owner o = h_user h /\
+                committed s' = working s'.
 Proof.
   unfold handle, lift. intros h s p it s' p' Hc H.
   destruct (it_body it); try discriminate; simpl in H.
   - unfold h_create in H.
     repeat match type of H with context [if ?x then _ else _] => destruct x end; try discriminate.
-    inversion H; subst. simpl. split; [reflexivity|]. eexists. repeat split; reflexivity.
+    inversion H; subst. simpl. eexists. eexists. split; [reflexivity|]; split; [simpl; lia|]; split; [apply in_or_app; right; left; reflexivity|]; repeat split; reflexivity.
   - unfold h_register in H.
     repeat match type of H with context [if ?x then _ else _] => destruct x end; try discriminate.
-    all: inversion H; subst; simpl; (split; [reflexivity|]); eexists; repeat split; reflexivity.
+    all: inversion H; subst; simpl; eexists; eexists; split; [reflexivity|]; split; [simpl; lia|]; split; [apply in_or_app; right; left; reflexivity|]; repeat split; reflexivity.
+  - unfold h_keypair in H. destruct (negb ok); [discriminate|].
+    inversion H; subst. simpl. eexists. exists (new_obj h (next (working s) + 1) K_PRIVATE priv_names).
+    split; [reflexivity|]; split; [simpl; lia|]; split; [apply in_or_app; right; left; reflexivity|]; repeat split; reflexivity.
+  - unfold h_derive in H. destruct (negb ok); [discriminate|].
+    inversion H; subst. simpl. eexists. eexists. split; [reflexivity|]; split; [simpl; lia|]; split; [apply in_or_app; right; left; reflexivity|]; repeat split; reflexivity.
 Qed.
 
 Lemma non_creating_keeps_placeholder : forall h s p it o s' p',
@@ -191,21 +202,26 @@ Proof.
   rewrite (non_creating_keeps_placeholder _ _ _ _ _ _ _ Hit Hh). now apply IH.
 Qed.
 
-Theorem placeholder_within_batch_thm : forall h s p c s1 p1 mid it s2 p2,
+Theorem placeholder_within_batch_thm : forall h s p c s1 p1,
     creating (it_body c) = true -> handle h s p c = (OK, s1, p1) ->
-    forallb (fun m => negb (creating (it_body m))) mid = true ->
-    exec session body handle h s1 p1 mid = (s2, p2) ->
-    creating (it_body it) = false ->
-    p2 = Some (next (working s)) /\
-    handle h s2 p2 it =
-    handle h s2 p2 {| it_op := it_op it; it_bid := it_bid it; it_body := with_target (next (working s)) (it_body it) |}.
+    exists u, p1 = Some u /\ next (working s) <= u < next (working s1) /\
+      (exists o, In o (objs (working s1)) /\ o_uid o = u /\ o_owner o = h_user h) /\
+      forall mid it s2 p2,
+        forallb (fun m => negb (creating (it_body m))) mid = true ->
+        exec session body handle h s1 p1 mid = (s2, p2) ->
+        creating (it_body it) = false ->
+        p2 = Some u /\
+        handle h s2 p2 it =
+        handle h s2 p2 {| it_op := it_op it; it_bid := it_bid it; it_body := with_target u (it_body it) |}.
 Proof.
-  intros h s p c s1 p1 mid it s2 p2 Hc Hh Hmid He Hit.
-  destruct (creating_sets_placeholder _ _ _ _ _ _ Hc Hh) as [Hp1 _].
+  intros h s p c s1 p1 Hc Hh.
+  destruct (creating_sets_placeholder _ _ _ _ _ _ Hc Hh) as [u [o [Hp1 [Hu [Hin [Huid [Hown _]]]]]]].
+  exists u. split; [assumption|]. split; [assumption|]. split; [eauto|].
+  intros mid it s2 p2 Hmid He Hit.
   assert (Hk := exec_non_creating_keeps_placeholder h mid s1 p1 Hmid).
   rewrite He in Hk. simpl in Hk. subst p2 p1.
   split; [reflexivity|]. unfold handle. cbn [it_body].
-  now rewrite <- (placeholder_resolves h (working s2) (next (working s)) (it_body it) (Some (next (working s))) Hit).
+  now rewrite <- (placeholder_resolves h (working s2) u (it_body it) (Some u) Hit).
 Qed.
 
 (* ---------- instantiation of the generic theorems ---------- *)
